@@ -34,7 +34,7 @@ LIN_SHAPES = {1: [(1,), (2,), (3,)], 2: [(1, 1), (2, 2), (2, 3)], 3: [(1, 1, 1),
 
 
 def bounds(tier):
-    return {"scale_alphabet_pow2": [str(x) for x in POW2], "scale_alphabet_decimal": [str(x) for x in DEC],
+    return {"extreme_triples_without_TVD": [[str(x) for x in t[:3]] for t in EXTREME], "scale_alphabet_pow2": [str(x) for x in POW2], "scale_alphabet_decimal": [str(x) for x in DEC],
             "triples": "4 diagonal + 8 mixed (quick) / all 4^3 + decimal (thorough)", "steps": 3}
 
 
@@ -48,6 +48,12 @@ def triples(tier):
             (1.0, 1.0, POW2[3], True), (POW2[2], POW2[1], POW2[0], True), (POW2[3], POW2[3], POW2[0], True), (POW2[0], POW2[0], POW2[3], True)]
     out += [(1e3, 1e-3, 1e3, False), (1e-6, 1e3, 1e6, False)]
     return out
+
+
+# unit systems far from O(1) (nanometres, picomoles, gigaseconds): used with the term sets without the TVD
+# correction, whose limiter guards are absolute (see ASSUMPTIONS)
+EXTREME = [(2.0 ** -40, 1.0, 1.0, True), (2.0 ** -30, 2.0 ** -10, 2.0 ** 30, True), (1.0, 1.0, 2.0 ** -70, True),
+           (2.0 ** 50, 2.0 ** 50, 2.0 ** 50, True), (2.0 ** -40, 2.0 ** -40, 2.0 ** -40, True), (2.0 ** -33, 2.0 ** 33, 1.0, True)]
 
 
 def cases(tier):
@@ -181,7 +187,7 @@ def _units_part(case, res):
                 res["precond_failed"] = res.get("precond_failed", 0) + 1
                 continue
             sc = max(float(np.max(np.abs(base[inner]))), 1e-300)
-            for (L, T, K, exact) in triples(case.get("tier", "quick")):
+            for (L, T, K, exact) in triples(case.get("tier", "quick")) + (EXTREME if "T" not in ts else []):
                 got, kap2 = run_config(spec, setup, ts, scheme, L, T, K)
                 res["evals"] += 1
                 res["nontrivial"] += 1 if sc > 0 else 0
